@@ -65,7 +65,12 @@ func hx(b []byte) string {
 func sigReplay(cs, ex tla.Value, p *plan, sp *spend, extra map[string]any) map[string]any {
 	// case_tla / expect_tla are the state itself: `check.sh C07 --replay <file>`
 	// re-runs exactly this case with the recorded seed
-	m := map[string]any{"ctx": cs.F("ctx").Go(), "expected_digest": ex.F("digest").String(), "case_tla": cs.String(), "expect_tla": ex.String()}
+	m := map[string]any{"ctx": cs.F("ctx").Go(), "case_tla": cs.String(), "expect_tla": ex.String()}
+	if ex.Has("digest") {
+		m["expected_digest"] = ex.F("digest").String()
+	} else {
+		m["expected_digests"] = ex.F("digests").String()
+	}
 	if sp != nil {
 		var buf bytes.Buffer
 		sp.tx.Serialize(&buf)
